@@ -849,7 +849,10 @@ func ComparisonExpr(query *Query, current Map, expr *sqlparser.ComparisonExpr, o
 				return false, INVALID_TYPE.Extend(fmt.Sprintf("failed to build `IN` expression. expected an array but found %T", right))
 			}
 			for _, value := range rightArray {
-				if leftValue == fmt.Sprintf("%v", value) {
+				if v, ok := value.(*float64); ok {
+					value = *v
+				}
+				if compare.Compare(leftValue, value) == 0 {
 					return false, nil
 				}
 			}
